@@ -168,6 +168,31 @@ add("C14",
     "utils.bootstrap_ci is trusted here as the formula (it is C13's subject); 'different seeds "
     "give different rows' has collision probability < 1e-10 by construction of the metric.")
 
+add("C15",
+    "property-based testing: Hypothesis-generated score sets and support specifications with all "
+    "8 x-axes x 4 configs enumerated per case; round-trip oracle (curve rates = object's rates at "
+    "curve thresholds), multiset containment, counts, monotonicity",
+    "Exploration: for every generated combination of supplied fnr/fpr/thresholds (None, empty, "
+    "values incl. out-of-range) and nb_points the curve's rates equal the object's rates at its "
+    "thresholds exactly, the chosen x-axis view is non-decreasing for both score directions, the "
+    "thresholds are exactly the supplied/assigned ones (or nb_points / all scores), and the "
+    "derived views are complements/aliases.",
+    "threshold_at_fnr/fpr of the same object define 'the thresholds that threshold setting "
+    "assigns' (they are C02/C03's subject).")
+
+add("C16",
+    "property-based testing: Hypothesis-generated objects/supports/configurations; validity "
+    "predicate over the returned bands for all four functions and an exact closed-form reference "
+    "(double-loop envelope of pointwise rectangles) for roc_with_ci under the identity sampler",
+    "Exploration: every band function returns on its documented arguments with rates matching "
+    "thresholds and NaN-free ordered (n,2) bands (roc_with_ci also within [0,1]) under 5 built-in "
+    "sampling configurations and the identity sampler; under the identity sampler roc_with_ci "
+    "equals the closed form incl. the rule-of-three replacement exactly at observed rates 0/1. "
+    "Two known findings (fixed_width_band_ci search initialisation) are excluded by narrow "
+    "predicates and reported as KNOWN-FINDING.",
+    "Closed form uses the object's own threshold_at_*/fnr/fpr; n of the rule of three may be scored "
+    "or all samples (not stated by the property); fixed_width_band_ci only on spanning supports.")
+
 NOT_YET = {}
 
 
